@@ -59,6 +59,31 @@ def own_yields(body):
     return out
 
 
+COVERED_STMTS = (ast.If, ast.With, ast.AsyncWith, ast.Try, ast.For, ast.AsyncFor, ast.While)
+
+
+def covered_yields(body):
+    """the yields both visitors of the implementation reach: expression statements `yield …` nested only in
+    if / with / try (all parts) / for / while and their async forms — in traversal (= source) order"""
+    out = []
+    def stmts(ss):
+        for s in ss:
+            if isinstance(s, ast.Expr) and isinstance(s.value, (ast.Yield, ast.YieldFrom)):
+                out.append(s.value)
+            elif isinstance(s, COVERED_STMTS):
+                for fld in ("body", "handlers", "orelse", "finalbody"):
+                    sub = getattr(s, fld, None)
+                    if not sub:
+                        continue
+                    if fld == "handlers":
+                        for h in sub:
+                            stmts(h.body)
+                    else:
+                        stmts(sub)
+    stmts(body)
+    return out
+
+
 def simple_annotation(e):
     """annotation made of names, attributes, subscripts, tuples and | unions only"""
     if isinstance(e, ast.Name):
@@ -184,6 +209,7 @@ def spec(text):
             ak = kw(fdeco, "autouse")
             autouse = isinstance(ak, ast.Constant) and ak.value is True
             ys = own_yields(fn.body)
+            cys = covered_yields(fn.body)
             deps = [a.arg for (a, has_def) in params if a.arg not in ("self", "request") and not has_def]
             deps_with_defaults = [a.arg for (a, _) in params if a.arg not in ("self", "request")]
             ret = None
@@ -201,7 +227,8 @@ def spec(text):
                 yield_kinds.add(type(y).__name__)
             defs.append({"name": name, "line": fn.lineno, "end_line": fn.end_lineno, "scope": scope, "autouse": autouse,
                          "deps": deps, "deps_with_defaults": deps_with_defaults, "generator": bool(ys),
-                         "yield_line": ys[0].lineno if ys else None, "ret": ret, "ret_simple": ret_simple,
+                         "yield_line": ys[0].lineno if ys else None,
+                         "covered_generator": bool(cys), "covered_yield_line": cys[0].lineno if cys else None, "ret": ret, "ret_simple": ret_simple,
                          "has_ret": fn.returns is not None, "doc": doc_clean, "doc_simple": doc_simple,
                          "func_name": fn.name, "func_name_col": None})
             for (a, has_def) in params:
